@@ -1,7 +1,8 @@
 (** C06 — Acknowledgements are processed only if proven for that exact packet. *)
 From IBC Require Import Core.ChainExamples.
 From IBC Require Import Lib.Bytes Core.Height Core.Chain Core.World Core.WorldFacts Core.ChainFacts Core.ChainInv Core.ChainThms
-  Lib.Sha256 Keys.Commit Keys.CommitFacts.
+  Lib.Sha256 Keys.Commit Keys.CommitFacts
+  Core.WorldInv Core.WorldInv2 Core.WorldInv3 Core.WorldThm Core.WorldV2 Core.WorldClose Core.WorldAck.
 Local Open Scope N_scope.
 
 (** v1: the stored commitment equals the commitment of exactly the relayed packet's fields, and the light
@@ -74,6 +75,57 @@ Section C06_commitments.
 End C06_commitments.
 Print Assumptions C06_v1_ack_commitment_binds.
 Print Assumptions C06_v2_ack_commitment_binds.
+
+(** *** end to end, in the two-chain world of Core/World.v with honest Tendermint-like clients, for every history of
+    blocks: [irun4] logs the accepted MsgAcknowledgement messages (v1 [k_alog], v2 [k_alog2]: source key, destination
+    key, the packet's commitment, the acknowledgement processed, light client used); [WI4] is the invariant.  Every
+    acknowledgement processed is for a packet whose commitment an accepted send stored under the packet's source key
+    ("that exact packet": C07 makes the commitment bind every committed field), and — over a remote client — the other
+    chain holds exactly the processed acknowledgement (v2: the whole list) under the packet's destination key. *)
+Theorem C06_end_to_end x l :
+  WI4 x -> good_steps4 x l ->
+  let y := irun4 x l in
+  (forall a, In a (k_alog (ka y)) ->
+     g_ever (g4a y) (a_src a) = Some (a_com a) /\
+     (a_client a <> w_lh (w4 y) -> ackc1 (w_chain (wb (w4 y))) (a_dst a) = Some (a_ack a))) /\
+  (forall a, In a (k_alog (kb y)) ->
+     g_ever (g4b y) (a_src a) = Some (a_com a) /\
+     (a_client a <> w_lh (w4 y) -> ackc1 (w_chain (wa (w4 y))) (a_dst a) = Some (a_ack a))) /\
+  (forall a, In a (k_alog2 (ka y)) ->
+     h_ever (h4a y) (a2_src a) = Some (a2_com a) /\
+     (a2_client a <> w_lh (w4 y) -> ackc2 (w_chain (wb (w4 y))) (a2_dst a) = Some (a2_acks a))) /\
+  (forall a, In a (k_alog2 (kb y)) ->
+     h_ever (h4b y) (a2_src a) = Some (a2_com a) /\
+     (a2_client a <> w_lh (w4 y) -> ackc2 (w_chain (wa (w4 y))) (a2_dst a) = Some (a2_acks a))).
+Proof. exact (ack_only_written x l). Qed.
+Print Assumptions C06_end_to_end.
+
+Theorem C06_invariant_initially w :
+  base_chain (wa w) -> base_chain (wb w) -> base_clients (wa w) (wb w) -> base_clients (wb w) (wa w) ->
+  WI4 (mkIW4 (mkIW3 (mkIW2 (mkIW w ghost0 ghost0) ghost20 ghost20) [] []) ghost40 ghost40).
+Proof. exact (wi4_base w). Qed.
+Print Assumptions C06_invariant_initially.
+
+Theorem C06_ghosts_do_not_influence x l : iw3 (irun4 x l) = irun3 (iw3 x) l.
+Proof. exact (irun4_iw3 x l). Qed.
+Print Assumptions C06_ghosts_do_not_influence.
+
+Theorem C06_logs_record_accepted_acks g pre o out :
+  (forall a, In a (k_alog (gupd4 g pre o out)) -> In a (k_alog g) \/
+     exists p ack ph rl ch kk, out = Ok /\ packet_of o = Some (OAck1 p ack ph rl) /\
+       chan_conn pre (p_sp p, p_sc p) = Some (ch, kk) /\
+       a = mkAE (p_sp p, p_sc p, p_seq p) (p_dp p, p_dc p, p_seq p) (commit1 p) ack (k_client kk)) /\
+  (forall a, In a (k_alog2 (gupd4 g pre o out)) -> In a (k_alog2 g) \/
+     exists q acks ph rl, out = Ok /\ packet_of o = Some (OAck2 q acks ph rl) /\
+       a = mkA2 (q_src q, q_seq q) (q_dst q, q_seq q) (commit2 q) acks (base_client pre (q_src q))).
+Proof. exact (conj (gupd4_alog g pre o out) (gupd4_alog2 g pre o out)). Qed.
+Print Assumptions C06_logs_record_accepted_acks.
+
+(** non-vacuity: send on A, receive on B (the application acknowledges with 2), client update on A, MsgAcknowledgement
+    on A with the honest membership proof of version 12: accepted and logged over client 9 *)
+Example C06_end_to_end_nonvacuous :
+  WI4 exa0 /\ good_steps4 exa0 exa_steps /\ map a_ack (k_alog (ka (irun4 exa0 exa_steps))) = [2].
+Proof. exact (conj exa_wi (conj exa_good (proj1 (proj2 exa_accepted)))). Qed.
 
 (** non-vacuity: a concrete state satisfies the invariant and a concrete 13-step history (duplicates, a failing
     application, an ORDERED timeout, multi-payload v2 receives) produces exactly the expected callbacks *)
